@@ -9,3 +9,24 @@ use super::*;
 pub fn thread_token(t: &ThreadPark) -> *mut usize {
     t.lock.data_ptr()
 }
+
+/// the wake token of a Blocker as the per-harness park/unpark models see it (callers of these
+/// harnesses are plain threads, so the parker is always the ThreadPark flavour)
+pub fn blocker_token(b: &Blocker) -> *mut usize {
+    match b.parker {
+        Parker::Thread(ref t) => thread_token(t),
+        Parker::Coroutine(_) => {
+            assert!(false, "model: coroutine parker in a thread-flavour harness");
+            std::ptr::null_mut()
+        }
+    }
+}
+
+/// Stub for `SyncBlocker::take_release` in harnesses without cancellation or time-outs: the
+/// release flag is only ever set by a waiter that gave up (cancel / time-out), so it is never set
+/// there - asserted, not assumed.  Returning the constant lets CBMC drop the
+/// unlock -> unpark_one -> unlock recursion instead of unrolling it under an unsatisfiable guard.
+pub fn take_release_never(b: &SyncBlocker) -> bool {
+    assert!(!unsafe { *b.release.as_ptr() }, "model: release flag set in a harness where no waiter gives up");
+    false
+}
